@@ -472,7 +472,7 @@ Definition c07_event (raw : option config) (ms : mstate) (before : obs) (ev : ev
               else
                 (sl_de sa =? (sl_de sb + 1) mod W32) && (sl_last sa =? sl_last sb) && (sl_rcnt sa =? sl_rcnt sb) &&
                 (if window_in_range e (sl_rcnt sb) then
-                   let trigger := (c_ucalls e <=? sl_de sb + 1) && (sl_last sb <? now - window_ns e (sl_rcnt sb)) &&
+                   let trigger := (c_ucalls e <=? (sl_de sb + 1) mod W32) && (sl_last sb <? now - window_ns e (sl_rcnt sb)) &&
                                   negb (sl_refreshing sb) in
                    Bool.eqb (has_newsc (ev_out ev)) trigger
                  else true) &&
@@ -496,7 +496,10 @@ Definition c07_event (raw : option config) (ms : mstate) (before : obs) (ev : ev
           match o_slot before i, o_slot after i with
           | Some sb, Some sa =>
               list_eqb N.eqb (removes (ev_out ev)) [sl_conn sb] &&
-              N.eqb (sl_conn sa) sc && (sl_aff sa =? sl_aff sb) && (sl_streams sa =? sl_streams sb) &&
+              N.eqb (sl_conn sa) sc && (sl_aff sa =? sl_aff sb) &&
+              (* active streams are kept; round-robin BIND calls that were waiting for this channel and are
+                 handed it in this very event (ev_ub) start counting now *)
+              (sl_streams sa =? sl_streams sb + Z.of_nat (length (filter (fun jn => N.eqb (snd jn) sc) (ev_ub ev)))) &&
               negb (sl_refreshing sa) && (sl_de sa =? 0) && (sl_last sa =? o_now before) &&
               (sl_rcnt sa =? (sl_rcnt sb + 1) mod W32) &&
               match aget (o_refr after) sc with None => true | Some _ => false end &&
